@@ -2,8 +2,402 @@ From Coq Require Import Lia ZifyBool.
 From VModel Require Import Wire.
 Open Scope list_scope. Open Scope Z_scope.
 
+Definition wfb (l : list Z) : Prop := Forall (fun b => 0 <= b < 256) l.
+
+Lemma wf_bytes_wfb l : wf_bytes l = true <-> wfb l.
+Proof.
+  unfold wf_bytes, wfb. rewrite forallb_forall, Forall_forall. unfold byte_ok.
+  split; intros H x Hx; specialize (H x Hx); lia.
+Qed.
+
+Lemma zlen_nonneg {A} (l : list A) : 0 <= zlen l.
+Proof. unfold zlen. lia. Qed.
+Lemma zlen_app {A} (a b : list A) : zlen (a ++ b) = zlen a + zlen b.
+Proof. unfold zlen. rewrite app_length. lia. Qed.
+Lemma zlen_cons {A} (x : A) l : zlen (x :: l) = zlen l + 1.
+Proof. unfold zlen. cbn [List.length]. lia. Qed.
+Lemma zlen_nil {A} : zlen (@nil A) = 0.
+Proof. reflexivity. Qed.
+
+(* ---- be_bytes ---- *)
 Lemma be_bytes_acc_length k v acc : List.length (be_bytes_acc k v acc) = (k + List.length acc)%nat.
 Proof. revert v acc; induction k as [|k IH]; intros v acc; cbn [be_bytes_acc]; [reflexivity|].
   rewrite IH. cbn [List.length]. lia. Qed.
 Lemma be_bytes_length k v : List.length (be_bytes k v) = k.
 Proof. unfold be_bytes. rewrite be_bytes_acc_length. cbn. lia. Qed.
+Lemma be_bytes_acc_app k v acc : be_bytes_acc k v acc = be_bytes k v ++ acc.
+Proof.
+  unfold be_bytes. revert v acc. induction k as [|k IH]; intros v acc; cbn [be_bytes_acc]; [reflexivity|].
+  rewrite IH. rewrite (IH _ [_]). rewrite <- app_assoc. reflexivity.
+Qed.
+Lemma be_bytes_S k v : be_bytes (S k) v = be_bytes k (v / 256) ++ [v mod 256].
+Proof.
+  unfold be_bytes at 1. cbn [be_bytes_acc]. rewrite be_bytes_acc_app.
+  rewrite Z.shiftr_div_pow2 by lia. change (2 ^ 8) with 256.
+  change 255 with (Z.ones 8). rewrite Z.land_ones by lia. change (2 ^ 8) with 256. reflexivity.
+Qed.
+Lemma be_bytes_0 v : be_bytes 0 v = [].
+Proof. reflexivity. Qed.
+
+Lemma val_app_gen a b : val (a ++ b) = val a * 256 ^ zlen b + val b.
+Proof.
+  induction a as [|x a IH]; cbn [val app]; [lia|].
+  rewrite IH, zlen_app. rewrite Z.pow_add_r by apply zlen_nonneg. ring.
+Qed.
+Lemma val_app l b : val (l ++ [b]) = val l * 256 + b.
+Proof. rewrite val_app_gen. cbn [val]. change (zlen [b]) with 1. change (zlen (@nil Z)) with 0. lia. Qed.
+
+Lemma val_be_bytes k v : val (be_bytes k v) = v mod 256 ^ Z.of_nat k.
+Proof.
+  revert v; induction k as [|k IH]; intros v.
+  - cbn. rewrite Z.mod_1_r. reflexivity.
+  - rewrite be_bytes_S, val_app, IH, Nat2Z.inj_succ, Z.pow_succ_r by lia.
+    assert (H: 0 < 256 ^ Z.of_nat k) by (apply Z.pow_pos_nonneg; lia).
+    rewrite Z.rem_mul_r by lia. lia.
+Qed.
+Lemma be_bytes_range k v : wfb (be_bytes k v).
+Proof.
+  revert v; induction k as [|k IH]; intros v; [constructor|].
+  rewrite be_bytes_S. apply Forall_app; split; [apply IH|]. constructor; [|constructor].
+  apply Z.mod_pos_bound; lia.
+Qed.
+Lemma val_range l : wfb l -> 0 <= val l < 256 ^ zlen l.
+Proof.
+  induction 1 as [|b l Hb _ IH]; cbn [val]; [change (256 ^ zlen (@nil Z)) with 1; lia|].
+  rewrite zlen_cons. rewrite Z.pow_add_r by (try apply zlen_nonneg; lia). change (256 ^ 1) with 256.
+  set (P := 256 ^ zlen l) in *. nia.
+Qed.
+
+(* ---- fixed-width integers ---- *)
+Lemma be_bytes_4 v : be_bytes 4 v = [v / 256 / 256 / 256 mod 256; v / 256 / 256 mod 256; v / 256 mod 256; v mod 256].
+Proof. rewrite !be_bytes_S. reflexivity. Qed.
+
+Lemma u32_roundtrip v r bs : enc_u32 v = Ok bs -> dec_u32 (bs ++ r) = Ok (v, r).
+Proof.
+  unfold enc_u32, u32_ok. destruct ((0 <=? v) && (v <? 4294967296)) eqn:E; [|discriminate].
+  intros H; injection H as <-. rewrite be_bytes_4. cbn [app dec_u32]. f_equal. f_equal.
+  unfold u32_of. Z.div_mod_to_equations. lia.
+Qed.
+Lemma enc_u32_wf v bs : enc_u32 v = Ok bs -> wfb bs /\ zlen bs = 4.
+Proof.
+  unfold enc_u32. destruct (u32_ok v); [|discriminate]. intros H; injection H as <-.
+  split; [apply be_bytes_range|]. unfold zlen. rewrite be_bytes_length. reflexivity.
+Qed.
+Lemma byte_roundtrip v r bs : enc_byte v = Ok bs -> dec_byte (bs ++ r) = Ok (v, r).
+Proof. unfold enc_byte. destruct (byte_ok v); [|discriminate]. intros H; injection H as <-. reflexivity. Qed.
+Lemma bool_roundtrip b r : dec_bool (enc_bool b ++ r) = Ok (b, r).
+Proof. destruct b; reflexivity. Qed.
+
+(* ---- strings ---- *)
+Lemma take_app_exact (s r : list Z) : take (zlen s) (s ++ r) = s.
+Proof.
+  unfold take. destruct ((zlen s <? 0) || (zlen (s ++ r) <=? zlen s)) eqn:E.
+  - pose proof (zlen_nonneg s). rewrite zlen_app in E. pose proof (zlen_nonneg r).
+    assert (Hr: zlen r = 0) by lia. destruct r; [apply app_nil_r|rewrite zlen_cons in Hr; pose proof (zlen_nonneg r); lia].
+  - unfold zlen. rewrite Nat2Z.id. rewrite firstn_app, Nat.sub_diag, firstn_all. cbn. apply app_nil_r.
+Qed.
+Lemma drop_app_exact (s r : list Z) : drop (zlen s) (s ++ r) = r.
+Proof.
+  unfold drop. destruct ((zlen s <? 0) || (zlen (s ++ r) <=? zlen s)) eqn:E.
+  - pose proof (zlen_nonneg s). rewrite zlen_app in E. pose proof (zlen_nonneg r).
+    assert (Hr: zlen r = 0) by lia. destruct r; [reflexivity|rewrite zlen_cons in Hr; pose proof (zlen_nonneg r); lia].
+  - unfold zlen. rewrite Nat2Z.id. rewrite skipn_app, Nat.sub_diag, skipn_all. reflexivity.
+Qed.
+Lemma string_roundtrip s r bs : enc_string s = Ok bs -> dec_string (bs ++ r) = Ok (s, r).
+Proof.
+  unfold enc_string, bind. destruct (enc_u32 (zlen s)) as [h|] eqn:E; [|discriminate].
+  intros H; injection H as <-. unfold dec_string, bind. rewrite <- app_assoc.
+  rewrite (u32_roundtrip _ _ _ E). rewrite take_app_exact, drop_app_exact. reflexivity.
+Qed.
+
+(* ---- name-lists ---- *)
+Definition no_sep (sep : Z) (x : list Z) : Prop := Forall (fun c => c <> sep) x.
+Lemma split_aux_prefix sep x rest cur :
+  no_sep sep x -> split_bytes_aux sep (x ++ rest) cur = split_bytes_aux sep rest (rev x ++ cur).
+Proof.
+  revert cur. induction x as [|c x IH]; intros cur H; [reflexivity|].
+  inversion H as [|? ? Hc Hx]; subst. cbn [app split_bytes_aux].
+  destruct (c =? sep) eqn:E; [lia|]. rewrite IH by assumption. cbn [rev]. rewrite <- app_assoc. reflexivity.
+Qed.
+Lemma split_join sep l : l <> [] -> Forall (no_sep sep) l -> split_bytes sep (join_bytes sep l) = l.
+Proof.
+  unfold split_bytes. induction l as [|x l IH]; [congruence|]. intros _ H.
+  inversion H as [|? ? Hx Hl]; subst. destruct l as [|y l].
+  - cbn [join_bytes]. rewrite <- (app_nil_r x) at 1. rewrite split_aux_prefix by assumption.
+    cbn [split_bytes_aux]. rewrite app_nil_r, rev_involutive. reflexivity.
+  - change (join_bytes sep (x :: y :: l)) with (x ++ sep :: join_bytes sep (y :: l)).
+    rewrite split_aux_prefix by assumption. cbn [split_bytes_aux]. rewrite Z.eqb_refl.
+    rewrite app_nil_r, rev_involutive. f_equal. apply IH; [discriminate|assumption].
+Qed.
+Lemma namelist_roundtrip l r bs :
+  l <> [] -> Forall (no_sep 44) l -> enc_namelist l = Ok bs -> dec_namelist (bs ++ r) = Ok (l, r).
+Proof.
+  intros Hne Hl H. unfold enc_namelist in H. unfold dec_namelist, bind.
+  rewrite (string_roundtrip _ r _ H). rewrite split_join by assumption. reflexivity.
+Qed.
+(* the converse direction: re-encoding what was decoded gives the same bytes *)
+Lemma split_aux_nonempty sep s cur : split_bytes_aux sep s cur <> [].
+Proof. revert cur. induction s as [|c s IH]; intros cur; cbn [split_bytes_aux]; [discriminate|].
+  destruct (c =? sep); [discriminate|apply IH]. Qed.
+Lemma join_split_aux sep s cur :
+  join_bytes sep (split_bytes_aux sep s cur) = rev cur ++ s.
+Proof.
+  revert cur. induction s as [|c s IH]; intros cur; cbn [split_bytes_aux].
+  - cbn [join_bytes]. rewrite app_nil_r. reflexivity.
+  - destruct (c =? sep) eqn:E.
+    + assert (c = sep) by lia. subst c.
+      destruct (split_bytes_aux sep s []) as [|y ys] eqn:Es.
+      * exfalso. exact (split_aux_nonempty _ _ _ Es).
+      * change (join_bytes sep (rev cur :: y :: ys)) with (rev cur ++ sep :: join_bytes sep (y :: ys)).
+        rewrite <- Es, IH. reflexivity.
+    + rewrite IH. cbn [rev]. rewrite <- app_assoc. reflexivity.
+Qed.
+Lemma join_split sep s : join_bytes sep (split_bytes sep s) = s.
+Proof. unfold split_bytes. rewrite join_split_aux. reflexivity. Qed.
+
+(* ---- mpint, SSH-2 ---- *)
+Lemma lor_shiftl_add r w : 0 <= w < 4294967296 -> Z.lor (Z.shiftl r 32) w = r * 4294967296 + w.
+Proof.
+  intros Hw. rewrite Z.shiftl_mul_pow2 by lia. change (2 ^ 32) with 4294967296.
+  assert (Hland: Z.land (r * 4294967296) w = 0).
+  { apply Z.bits_inj'. intros i Hi. rewrite Z.land_spec, Z.bits_0.
+    destruct (Z_lt_le_dec i 32) as [Hlt|Hge].
+    + change 4294967296 with (2 ^ 32). rewrite Z.mul_pow2_bits_low by lia. reflexivity.
+    + replace (Z.testbit w i) with false; [apply andb_false_r|].
+      symmetry. destruct (Z.eq_dec w 0) as [->|Hn]; [apply Z.bits_0|].
+      apply Z.bits_above_log2; [lia|]. assert (Z.log2 w < 32); [|lia].
+      apply Z.log2_lt_pow2; lia. }
+  rewrite (Z.add_nocarry_lxor _ _ Hland), (Z.lxor_lor _ _ Hland). reflexivity.
+Qed.
+
+Lemma u32_of_val a b c d : u32_of a b c d = val [a; b; c; d].
+Proof. unfold u32_of. cbn [val]. unfold zlen. cbn [List.length]. change (Z.of_nat 3) with 3. change (Z.of_nat 2) with 2.
+  change (Z.of_nat 1) with 1. change (Z.of_nat 0) with 0. lia. Qed.
+Lemma u32_of_range a b c d : wfb [a; b; c; d] -> 0 <= u32_of a b c d < 4294967296.
+Proof. intros H. rewrite u32_of_val. apply val_range in H. exact H. Qed.
+
+(* induction in steps of four *)
+Lemma list_ind4 (P : list Z -> Prop) :
+  P [] -> (forall a b c d l, P l -> P (a :: b :: c :: d :: l)) ->
+  forall l, (List.length l mod 4 = 0)%nat -> P l.
+Proof.
+  intros H0 H4 l. remember (List.length l) as n eqn:Hn. revert l Hn.
+  induction n as [n IH] using lt_wf_ind. intros l Hn Hm.
+  destruct l as [|a [|b [|c [|d l]]]]; cbn [List.length] in Hn; subst n; try exact H0; try (cbn in Hm; discriminate).
+  apply H4. apply (IH (List.length l)); [lia|reflexivity|].
+  replace (S (S (S (S (List.length l))))) with (List.length l + 1 * 4)%nat in Hm by lia.
+  rewrite Nat.mod_add in Hm by lia. exact Hm.
+Qed.
+
+Lemma wfb_split4 a b c d l : wfb (a :: b :: c :: d :: l) -> wfb [a; b; c; d] /\ wfb l.
+Proof. intros H. change (a :: b :: c :: d :: l) with ([a; b; c; d] ++ l) in H. apply Forall_app in H. exact H. Qed.
+
+Lemma parse_words_unsigned l : (List.length l mod 4 = 0)%nat -> wfb l ->
+  forall r, parse_words l r false = r * 256 ^ zlen l + val l.
+Proof.
+  intros Hl. pattern l. revert l Hl. apply list_ind4.
+  - intros _ r. cbn. lia.
+  - intros a b c d l IH Hwf r. cbn [parse_words].
+    destruct (wfb_split4 _ _ _ _ _ Hwf) as [Hw4 Hwl].
+    rewrite lor_shiftl_add by (apply u32_of_range; assumption).
+    rewrite IH by assumption. rewrite u32_of_val.
+    change (a :: b :: c :: d :: l) with ([a; b; c; d] ++ l). rewrite val_app_gen, zlen_app.
+    rewrite Z.pow_add_r by (try apply zlen_nonneg). change (zlen [a; b; c; d]) with 4.
+    change (256 ^ 4) with 4294967296. ring.
+Qed.
+
+Lemma parse_words_signed a b c d l : (List.length l mod 4 = 0)%nat -> wfb (a :: b :: c :: d :: l) ->
+  parse_words (a :: b :: c :: d :: l) 0 true =
+  val (a :: b :: c :: d :: l) - (if 128 <=? a then 256 ^ zlen (a :: b :: c :: d :: l) else 0).
+Proof.
+  intros Hl Hwf. cbn [parse_words]. rewrite Z.shiftl_0_l, Z.lor_0_l.
+  destruct (wfb_split4 _ _ _ _ _ Hwf) as [Hw4 Hwl].
+  rewrite parse_words_unsigned by assumption.
+  change (a :: b :: c :: d :: l) with ([a; b; c; d] ++ l). rewrite val_app_gen, zlen_app.
+  rewrite Z.pow_add_r by (try apply zlen_nonneg). change (zlen [a; b; c; d]) with 4. change (256 ^ 4) with 4294967296.
+  rewrite <- u32_of_val. pose proof (u32_of_range a b c d Hw4) as Hr.
+  assert (Ha: 0 <= a < 256) by (inversion Hw4; assumption).
+  assert (Hb: 0 <= b < 256 /\ 0 <= c < 256 /\ 0 <= d < 256).
+  { inversion Hw4 as [|? ? _ T1]; subst. inversion T1 as [|? ? ? T2]; subst. inversion T2 as [|? ? ? T3]; subst.
+    inversion T3; subst. auto. }
+  unfold i32_of, u32_of in *. destruct (128 <=? a) eqn:E1; destruct (2147483648 <=? ((a * 256 + b) * 256 + c) * 256 + d) eqn:E2; lia.
+Qed.
+
+Lemma val_repeat_0 k : val (repeat 0 k) = 0.
+Proof. induction k as [|k IH]; cbn [repeat val]; lia. Qed.
+Lemma val_repeat_255 k : val (repeat 255 k) = 256 ^ Z.of_nat k - 1.
+Proof.
+  induction k as [|k IH]; [reflexivity|]. cbn [repeat val]. rewrite IH.
+  unfold zlen. rewrite repeat_length. rewrite Nat2Z.inj_succ, Z.pow_succ_r by lia. lia.
+Qed.
+Lemma wfb_repeat b k : 0 <= b < 256 -> wfb (repeat b k).
+Proof. intros H. induction k; cbn [repeat]; constructor; assumption. Qed.
+
+Lemma length_mod4_pad (v : list Z) (pad : Z) :
+  let m := zlen v mod 4 in
+  Nat.modulo (List.length (if m =? 0 then v else repeat pad (Z.to_nat (4 - m)) ++ v)) 4 = 0%nat.
+Proof.
+  cbv zeta. unfold zlen. set (n := List.length v).
+  destruct (Z.of_nat n mod 4 =? 0) eqn:E.
+  - apply Nat2Z.inj. rewrite Nat2Z.inj_mod. apply Z.eqb_eq in E. exact E.
+  - subst n. rewrite app_length, repeat_length. apply Nat2Z.inj. rewrite Nat2Z.inj_mod, Nat2Z.inj_add. set (n := List.length v) in *.
+    rewrite Z2Nat.id by (pose proof (Z.mod_pos_bound (Z.of_nat n) 4); lia).
+    change (Z.of_nat 4) with 4. change (Z.of_nat 0) with 0.
+    pose proof (Z.mod_pos_bound (Z.of_nat n) 4 ltac:(lia)).
+    pose proof (Z.div_mod (Z.of_nat n) 4 ltac:(lia)).
+    replace (4 - Z.of_nat n mod 4 + Z.of_nat n) with ((Z.of_nat n / 4 + 1) * 4) by lia.
+    apply Z.mod_mul. lia.
+Qed.
+
+(* the word loop computes the two's complement value (this is the lemma the pre-fix code violated) *)
+Lemma parse_mpint_signed v b t : v = b :: t -> wfb v -> 128 <= b ->
+  parse_mpint v 255 true = val v - 256 ^ zlen v.
+Proof.
+  intros -> Hwf Hb. unfold parse_mpint. pose proof (length_mod4_pad (b :: t) 255) as Hm. cbv zeta in Hm.
+  set (m := zlen (b :: t) mod 4) in *. destruct (m =? 0) eqn:E.
+  - destruct t as [|c [|d [|e t]]]; try (cbn in Hm; discriminate).
+    rewrite parse_words_signed; [|cbn [List.length] in Hm |assumption].
+    + destruct (128 <=? b) eqn:E1; [reflexivity|lia].
+    + replace (S (S (S (S (List.length t))))) with (List.length t + 1 * 4)%nat in Hm by lia.
+      rewrite Nat.mod_add in Hm by lia. exact Hm.
+  - assert (Hk: 1 <= 4 - m <= 3) by (pose proof (Z.mod_pos_bound (zlen (b :: t)) 4 ltac:(lia)); unfold m; lia).
+    destruct (Z.to_nat (4 - m)) as [|k] eqn:Ek; [lia|].
+    cbn [repeat app] in *.
+    remember (repeat 255 k ++ b :: t) as w eqn:Hw.
+    assert (Hwfw: wfb (255 :: w)).
+    { constructor; [lia|]. subst w. apply Forall_app. split; [apply wfb_repeat; lia|assumption]. }
+    destruct w as [|c [|d [|e w]]]; try (cbn in Hm; discriminate).
+    rewrite parse_words_signed; [|cbn [List.length] in Hm|assumption].
+    + change (128 <=? 255) with true. cbv iota.
+      change (255 :: c :: d :: e :: w) with ([255] ++ (c :: d :: e :: w)). rewrite Hw.
+      rewrite val_app_gen. rewrite !zlen_app. rewrite (val_app_gen (repeat 255 k)). rewrite val_repeat_255.
+      cbn [val]. change (256 ^ zlen (@nil Z)) with 1. change (zlen [255]) with 1.
+      assert (Hzk: zlen (repeat 255 k) = Z.of_nat k) by (unfold zlen; rewrite repeat_length; reflexivity).
+      rewrite Hzk.
+      rewrite (Z.pow_add_r 256 1 _) by (pose proof (zlen_nonneg (b :: t)); lia).
+      rewrite (Z.pow_add_r 256 (Z.of_nat k) _) by (try apply zlen_nonneg; lia).
+      change (256 ^ 1) with 256.
+      set (P := 256 ^ zlen (b :: t)). set (Q := 256 ^ Z.of_nat k). lia.
+    + replace (S (S (S (S (List.length w))))) with (List.length w + 1 * 4)%nat in Hm by lia.
+      rewrite Nat.mod_add in Hm by lia. exact Hm.
+Qed.
+
+Lemma parse_mpint_unsigned v : wfb v -> parse_mpint v 0 false = val v.
+Proof.
+  intros Hwf. unfold parse_mpint. pose proof (length_mod4_pad v 0) as Hm. cbv zeta in Hm.
+  set (m := zlen v mod 4) in *. destruct (m =? 0) eqn:E.
+  - rewrite parse_words_unsigned by assumption. lia.
+  - rewrite parse_words_unsigned; [|assumption|apply Forall_app; split; [apply wfb_repeat; lia|assumption]].
+    rewrite val_app_gen, val_repeat_0. lia.
+Qed.
+
+Lemma dec_mpint2_value v r bs : wfb v -> enc_string v = Ok bs -> dec_mpint2 (bs ++ r) = Ok (mpint2_value v, r).
+Proof.
+  intros Hwf H. unfold dec_mpint2, bind. rewrite (string_roundtrip _ r _ H).
+  unfold mpint2_value. destruct v as [|b t]; [reflexivity|].
+  destruct (128 <=? b) eqn:E.
+  - rewrite (parse_mpint_signed _ b t eq_refl Hwf) by lia. reflexivity.
+  - rewrite parse_mpint_unsigned by assumption. reflexivity.
+Qed.
+
+(* ---- create_mpint (signed) is the minimal two's complement encoding ---- *)
+Definition mp_len (n : Z) : Z := bitlen n / 8 + (if n =? 0 then 0 else 1).
+Lemma bitlen_bound n : n <> 0 -> Z.abs n < 2 ^ bitlen n /\ 0 < bitlen n.
+Proof. intros Hn. unfold bitlen. destruct (n =? 0) eqn:E; [lia|].
+  assert (Ha: 0 < Z.abs n) by lia. pose proof (Z.log2_spec _ Ha) as [_ H2].
+  pose proof (Z.log2_nonneg (Z.abs n)). rewrite <- Z.add_1_r in H2. split; lia. Qed.
+Lemma mp_len_bound n : n <> 0 -> 1 <= mp_len n /\ Z.abs n < 2 ^ (8 * mp_len n - 1).
+Proof. intros Hn. destruct (bitlen_bound n Hn) as [Hb Hp]. unfold mp_len.
+  destruct (n =? 0) eqn:E; [lia|].
+  pose proof (Z.div_mod (bitlen n) 8 ltac:(lia)).
+  pose proof (Z.mod_pos_bound (bitlen n) 8 ltac:(lia)).
+  split; [pose proof (Z.div_pos (bitlen n) 8); lia|].
+  eapply Z.lt_le_trans; [exact Hb|]. apply Z.pow_le_mono_r; lia. Qed.
+
+Lemma strip_ff80_cases (b : Z) (t : list Z) :
+  (exists r, b = 255 /\ t = 128 :: r) \/
+  match b :: t with 255 :: 128 :: r => 128 :: r | _ => b :: t end = b :: t.
+Proof.
+  destruct (Z.eq_dec b 255) as [->|Hne].
+  - destruct t as [|c r]; [right; reflexivity|].
+    destruct (Z.eq_dec c 128) as [->|Hc]; [left; eauto|].
+    right. destruct c as [|p|p]; try reflexivity.
+    repeat (destruct p as [p|p|]; try reflexivity); lia.
+  - right. destruct b as [|p|p]; try reflexivity.
+    repeat (destruct p as [p|p|]; try reflexivity); lia.
+Qed.
+
+Lemma create_mpint_signed_wf n : wfb (create_mpint n true (bitlen n)).
+Proof.
+  unfold create_mpint. fold (mp_len n). pose proof (be_bytes_range (Z.to_nat (mp_len n)) n) as H.
+  destruct (be_bytes (Z.to_nat (mp_len n)) n) as [|b t]; [constructor|].
+  destruct (strip_ff80_cases b t) as [[r [-> ->]]|Hnot]; [|rewrite Hnot; exact H].
+  inversion H; assumption.
+Qed.
+
+Lemma mpint2_value_create n : mpint2_value (create_mpint n true (bitlen n)) = n.
+Proof.
+  destruct (Z.eq_dec n 0) as [->|Hn]; [reflexivity|].
+  destruct (mp_len_bound n Hn) as [HL Hb]. unfold create_mpint. fold (mp_len n).
+  set (L := Z.to_nat (mp_len n)). assert (HLn: Z.of_nat L = mp_len n) by (unfold L; lia).
+  pose proof (val_be_bytes L n) as Hv. pose proof (be_bytes_length L n) as Hlen.
+  pose proof (be_bytes_range L n) as Hr. rewrite HLn in Hv.
+  assert (H256: 256 ^ mp_len n = 2 * 2 ^ (8 * mp_len n - 1)).
+  { change 256 with (2 ^ 8). rewrite <- Z.pow_mul_r by lia.
+    replace (8 * mp_len n) with (Z.succ (8 * mp_len n - 1)) at 1 by lia.
+    rewrite Z.pow_succ_r by lia. reflexivity. }
+  assert (Hpos: 0 < 2 ^ (8 * mp_len n - 1)) by (apply Z.pow_pos_nonneg; lia).
+  destruct (be_bytes L n) as [|b t] eqn:Ed; [cbn in Hlen; lia|].
+  inversion Hr as [|? ? Hb0 Ht]; subst. pose proof (val_range t Ht) as Hvt.
+  cbn [val] in Hv. cbn [List.length] in Hlen.
+  assert (Hlt: zlen t = mp_len n - 1) by (unfold zlen; lia).
+  assert (Hsplit: 256 ^ mp_len n = 256 * 256 ^ zlen t).
+  { rewrite Hlt. replace (mp_len n) with (Z.succ (mp_len n - 1)) at 1 by lia.
+    rewrite Z.pow_succ_r by lia. reflexivity. }
+  assert (Hp2: 0 < 256 ^ zlen t) by (apply Z.pow_pos_nonneg; [lia|apply zlen_nonneg]).
+  destruct (Z_lt_le_dec 0 n) as [Hpn|Hnn].
+  - assert (Hm: n mod 256 ^ mp_len n = n) by (apply Z.mod_small; lia).
+    assert (Hb128: b < 128) by nia.
+    destruct (strip_ff80_cases b t) as [[r [-> ->]]|Hnot]; [lia|].
+    rewrite Hnot. unfold mpint2_value. destruct (128 <=? b) eqn:E; [lia|]. cbn [val]. lia.
+  - assert (Hm: n mod 256 ^ mp_len n = n + 256 ^ mp_len n).
+    { symmetry. apply Z.mod_unique with (q := -1); lia. }
+    assert (Hb128: 128 <= b) by nia.
+    destruct (strip_ff80_cases b t) as [[r [-> ->]]|Hnot].
+    + unfold mpint2_value. change (128 <=? 128) with true. cbv iota.
+      cbn [val] in *. rewrite !zlen_cons in *.
+      rewrite !Z.pow_add_r in * by (try apply zlen_nonneg; lia). lia.
+    + rewrite Hnot. unfold mpint2_value. destruct (128 <=? b) eqn:E; [|lia]. cbn [val].
+      rewrite zlen_cons. rewrite Z.pow_add_r by (try apply zlen_nonneg; lia). lia.
+Qed.
+
+Theorem mpint2_roundtrip n r bs : enc_mpint2 n = Ok bs -> dec_mpint2 (bs ++ r) = Ok (n, r).
+Proof.
+  intros H. unfold enc_mpint2 in H.
+  rewrite (dec_mpint2_value _ r _ (create_mpint_signed_wf n) H). rewrite mpint2_value_create. reflexivity.
+Qed.
+
+(* minimality (RFC 4251 s5): no redundant leading 0x00 / 0xff byte *)
+Lemma create_mpint_signed_length n : zlen (create_mpint n true (bitlen n)) <= mp_len n.
+Proof.
+  unfold create_mpint. fold (mp_len n). pose proof (be_bytes_length (Z.to_nat (mp_len n)) n) as Hlen.
+  assert (0 <= mp_len n).
+  { unfold mp_len, bitlen. destruct (n =? 0); [cbn; lia|]. pose proof (Z.log2_nonneg (Z.abs n)).
+    pose proof (Z.div_pos (Z.log2 (Z.abs n) + 1) 8). lia. }
+  destruct (be_bytes (Z.to_nat (mp_len n)) n) as [|b t]; [unfold zlen; cbn; lia|].
+  destruct (strip_ff80_cases b t) as [[r [-> ->]]|Hnot].
+  - unfold zlen in *. cbn [List.length] in *. lia.
+  - rewrite Hnot. unfold zlen. lia.
+Qed.
+
+(* recorded finding C10/mpint1-negative: the SSH-1 format has no sign *)
+Lemma mpint1_negative_refuted :
+  exists n bs, n < 0 /\ enc_mpint1 n = Ok bs /\ dec_mpint1 bs <> Ok (n, []).
+Proof. exists (-5), [0; 3; 251]. split; [lia|]. split; [vm_compute; reflexivity|]. vm_compute. discriminate. Qed.
+
+(* non-vacuity: the hypotheses of the round-trip theorems are met by concrete values *)
+Example mpint2_example : enc_mpint2 (-6442450944) = Ok [0; 0; 0; 5; 254; 128; 0; 0; 0]
+  /\ dec_mpint2 [0; 0; 0; 5; 254; 128; 0; 0; 0] = Ok (-6442450944, []).
+Proof. split; vm_compute; reflexivity. Qed.
+Example namelist_example : enc_namelist [[97; 98]; []; [99]] = Ok [0; 0; 0; 5; 97; 98; 44; 44; 99].
+Proof. vm_compute. reflexivity. Qed.
